@@ -22,9 +22,11 @@ def _zombie_or_gone(pid):
 class GateRun:
     """One execution of a gate scenario under a given plan (list of event sets)."""
 
-    def __init__(self, k, slots, nested=False, log=False, fail=(), argv=None, steal=False):
+    def __init__(self, k, slots, nested=False, log=False, fail=(), argv=None, steal=False, lockwait=False):
         self.k, self.slots, self.nested, self.log, self.fail = k, slots, nested, log, set(fail)
         self.steal = steal
+        self.lockwait = lockwait      # the gated process also asks for a target that another invocation is building: it gives its
+                                      # slot away while it waits for the lock and then has to find one again with nothing running
         self.diverged = False
         self.top = common.new_dir('gate')
         self.trace = os.path.join(self.top, '.rv-trace')
@@ -34,10 +36,14 @@ class GateRun:
             write_file(os.path.join(self.top, 't%d.do' % i),
                        'echo "S t%d $$" >> "$RV_TRACE"\nread x < f%d\n%secho t%d > $3\necho "E t%d $$" >> "$RV_TRACE"\n'
                        % (i, i, ('echo "E t%d $$ 9" >> "$RV_TRACE"; exit 9\n' % i) if i in self.fail else '', i, i))
+        self.nlock = int(lockwait) if lockwait else 0      # how many such targets (each with its own holder)
+        for i in range(1, self.nlock + 1):
+            os.mkfifo(os.path.join(self.top, 'fc%d' % i))
+            write_file(os.path.join(self.top, 'c%d.do' % i), 'echo "S c%d $$" >> "$RV_TRACE"\nread x < fc%d\necho c > $3\necho "E c%d $$" >> "$RV_TRACE"\n' % (i, i, i))
         if nested:
             write_file(os.path.join(self.top, 'top.do'),
                        'export REDO_VERIF_GATE_REQ="$RV_GATE_REQ" REDO_VERIF_GATE_ACK="$RV_GATE_ACK"\n'
-                       'redo-ifchange %s\necho top > $3\n' % ' '.join('t%d' % i for i in range(1, k + 1)))
+                       'redo-ifchange %s%s\necho top > $3\n' % (''.join('c%d ' % i for i in range(1, self.nlock + 1)), ' '.join('t%d' % i for i in range(1, k + 1))))
         os.mkfifo(os.path.join(self.top, 'req'))
         os.mkfifo(os.path.join(self.top, 'ack'))
         open(self.trace, 'w').close()
@@ -74,6 +80,15 @@ class GateRun:
             env['REDO_VERIF_GATE_REQ'], env['REDO_VERIF_GATE_ACK'] = gate['REQ'], gate['ACK']
             argv = self.argv or (['redo-ifchange'] + ['t%d' % i for i in range(1, self.k + 1)])
         reqfd = os.open(gate['REQ'], os.O_RDONLY | os.O_NONBLOCK)
+        holders = []
+        for i in range(1, self.nlock + 1):
+            henv = base_env(dict(RV_TRACE=self.trace, RV_TOP=top, REDO_LOG='0'))
+            holders.append(subprocess.Popen(['redo-ifchange', 'c%d' % i], cwd=top, env=henv, stdin=subprocess.DEVNULL, stdout=subprocess.DEVNULL,
+                                            stderr=subprocess.DEVNULL, start_new_session=True))
+            tz = time.time()
+            while time.time() - tz < 10 and (b'S c%d ' % i) not in (common.read_file(self.trace) or b''):
+                time.sleep(0.005)
+        released = 0
         p = subprocess.Popen(argv, cwd=top, env=env, pass_fds=(R, W), stdin=subprocess.DEVNULL,
                              stdout=subprocess.PIPE, stderr=subprocess.STDOUT, start_new_session=True)
         steps = []
@@ -88,11 +103,39 @@ class GateRun:
                 status = 'timeout'
                 break
             rl, _, _ = select.select([reqfd], [], [], 0.05)
-            if not rl:
-                continue
-            chunk = os.read(reqfd, 65536)
+            chunk = os.read(reqfd, 65536) if rl else b''
             if not chunk:
-                time.sleep(0.005)
+                if rl:
+                    time.sleep(0.005)      # EOF: no writer at the moment
+                if self.nested and held > 0 and b' js_exit ' in (common.read_file(self.trace) or b''):
+                    # the gated (nested) process is gone; the slots the harness was holding back for it return to the pool, as they
+                    # would when the other jobs that had them finish (its parent may need one to take its own slot back)
+                    os.write(W, b't' * held)
+                    held = 0
+                if released < len(holders) and (common.read_file(self.trace) or b'').count(b' lock_wait ') > released:
+                    # the gated process has given its slot away and blocks on the lock: take that slot out of the pipe (some
+                    # other job got it), then let the holder of that target finish
+                    time.sleep(0.05)
+                    while select.select([R], [], [], 0)[0]:
+                        held += len(os.read(R, 16))
+                    m = re.findall(r'lock_wait fid=(\d+)', (common.read_file(self.trace) or b'').decode('utf-8', 'replace'))
+                    # which target it waits for is not in the record by name: release the holders in the order of the command line
+                    for i, h in enumerate(holders):
+                        if h.poll() is None:
+                            # the one whose lock is being waited for is the first still running in request order, unless the
+                            # process skipped it; releasing in order is what the script's argument order gives
+                            try:
+                                fd = os.open(os.path.join(top, 'fc%d' % (i + 1)), os.O_WRONLY | os.O_NONBLOCK)
+                                os.write(fd, b'go\n')
+                                os.close(fd)
+                            except OSError:
+                                pass
+                            try:
+                                h.wait(timeout=10)
+                            except subprocess.TimeoutExpired:
+                                pass
+                            break
+                    released += 1
                 continue
             buf += chunk
             while b'\n' in buf:
@@ -175,6 +218,13 @@ class GateRun:
                         os.read(R, 1)      # stolen: the token stays with the harness
                     else:
                         held -= 1          # the process got there first after all
+        for h in holders:
+            if h.poll() is None:
+                common.kill_session(h.pid)
+            try:
+                h.wait(timeout=5)
+            except Exception:
+                pass
         if status != 'exit':
             common.kill_session(p.pid)
         try:
@@ -203,8 +253,9 @@ def subsets(avail):
     out = []
     for r in range(1, len(items) + 1):
         for c in itertools.combinations(items, r):
-            if 'timer' in c and len(c) > 1:
-                continue     # a timer expiry together with I/O is just the I/O wake-up arriving late
+            if 'timer' in c and len(c) > 2:
+                continue     # the timer together with one I/O event is enough: the event loop handles the I/O first and then
+                             # wakes both waiters; which of them the waiting future looks at first is its own (pseudo-random) choice
             if 'steal' in c and 'tok' in c:
                 continue
             out.append(list(c))
